@@ -51,4 +51,10 @@ def corpus():
         {"bnet": "a, b\nb, a & c\nc, !a | b", "max_motifs": 100000,
          "ops": [["bfs", 0, None, None], ["bfs", 0, None, 1], ["dfs", 0, None, 1], ["min", 0, 1, False]],
          "final_full": True},
+        # attractor-seed expansion where an unexpanded child (-111) lies inside the stable motif (--1-) of an expanded
+        # sibling: rare in the generated families (about 1 in 300 monotone latch networks), kept as a directed case
+        {"bnet": "x0, x3 & x0\nx1, x3 | x0\nx2, x2 | x1\nx3, x0 | x1", "max_motifs": 100000,
+         "ops": [["aseeds", None]], "final_full": True},
+        {"bnet": "x0, x3 & x0\nx1, x3 | x0\nx2, x2 | x1\nx3, x0 | x1", "max_motifs": 100000,
+         "ops": [["min", 0, None, False], ["aseeds", None], ["bfs", 0, None, None]], "final_full": True},
     ]
